@@ -503,7 +503,7 @@ func C19(c *core.Ctx) {
 	}
 
 	// ---- (c) concurrent loads: inventory from the source, model, workloads, race detector
-	inv, unknown, err := inventory.Scan("/repo")
+	inv, unknown, err := inventory.Scan(core.RepoRoot)
 	if err != nil {
 		c.Inconclusive("inventory scan failed: " + err.Error())
 		return
